@@ -17,11 +17,22 @@ class Scen(CompScenario):
     def build(self):
         from transactron.lib.basicio import InputSampler, OutputBuffer
 
+        from amaranth.hdl import signed
+        from amaranth.lib.data import StructLayout
+
         c = self.cfg
-        layout = [(n, w) for n, w in c["layout"]]
-        self.fields = [n for n, _ in layout]
+        # layout entries: [name, width] or [name, width, signed]; given as a list of pairs or as a StructLayout object
+        self.fdesc = [(e[0], int(e[1]), bool(e[2]) if len(e) > 2 else False) for e in c["layout"]]
+        layout = [(n, signed(w) if sg else w) for n, w, sg in self.fdesc]
+        if c.get("layout_form", "list") == "struct":
+            layout = StructLayout(dict(layout))
+        self.fields = [n for n, _, _ in self.fdesc]
         self.is_in = c["comp"] == "in"
         kw = dict(edge=bool(c["edge"]), polarity=bool(c["polarity"]), synchronize=bool(c["sync"]))
+        # arguments left out: only ones whose value is the documented default (False) -- the model keeps using that value
+        self.omitted = [a for a in c.get("omit", []) if not c[{"synchronize": "sync"}.get(a, a)]]
+        for a in self.omitted:
+            del kw[a]
         if self.is_in:
             self.dut = InputSampler(layout, **kw)
             self.port = "get"
@@ -77,10 +88,46 @@ class Scen(CompScenario):
             name = f"data.{f}" if self.is_in else f"put.i.{f}"
             w = self.widths[name]
             v = self.tag if k == 0 else rng.getrandbits(w)
-            if rng.random() < 0.08:
+            r = rng.random()
+            if r < 0.08:
                 v = rng.choice([0, (1 << w) - 1])
-            stim[name] = v & ((1 << w) - 1)
+            elif r < 0.16:  # sign bit / high bits of wide fields
+                v = rng.choice([1 << (w - 1), (1 << (w - 1)) - 1, (1 << (w - 1)) | self.tag])
+            elif k == 0 and w > 12 and r < 0.5:  # a unique value that also occupies the bits above bit 12
+                v = (self.tag << (w - 8)) | self.tag
+            v &= (1 << w) - 1
+            if self.fdesc[k][2] and v >> (w - 1):
+                v -= 1 << w  # signed field: the value as the simulator reports it
+            stim[name] = v
         return stim
+
+    def vals(self, stim, prefix):
+        """The data values of this cycle as the hardware sees them (a replayed / shrunk value outside the range of
+        its field is applied truncated by the simulator)."""
+        out = []
+        for n, w, sg in self.fdesc:
+            v = stim.get(prefix + n, 0) & ((1 << w) - 1)
+            if sg and v >> (w - 1):
+                v -= 1 << w
+            out.append(v)
+        return tuple(out)
+
+    def count_transfer(self, vals):
+        for (n, w, sg), v in zip(self.fdesc, vals):
+            if sg:
+                self.hit("signed_field_transferred")
+                if v < 0:
+                    self.hit("negative_value_transferred")
+            if w > 12:
+                self.hit("wide_field_transferred")
+                if (v & ((1 << w) - 1)) >> 12:
+                    self.hit("bits_above_12_transferred")
+        if self.cfg.get("layout_form", "list") == "struct":
+            self.hit("struct_layout_transferred")
+        for a in self.omitted:
+            self.hit("called_with_default_" + a)
+        if len(self.omitted) == 3:
+            self.hit("called_with_all_defaults")
 
     # ---- oracle -----------------------------------------------------------------------------
     def check(self, cyc, stim, obs):
@@ -99,7 +146,9 @@ class Scen(CompScenario):
             active = at_level
         en = stim.get(f"{p}.en", 0)
         done = obs[f"{p}.done"]
-        ctx = f"cfg(edge={c['edge']},pol={c['polarity']},sync={c['sync']}) raw={raw} prev={self.raw1} prev2={self.raw2}"
+        ctx = f"cfg(edge={c['edge']},pol={c['polarity']},sync={c['sync']}" + \
+            (f"; not passed: {','.join(self.omitted)}" if self.omitted else "") + \
+            f") raw={raw} prev={self.raw1} prev2={self.raw2}"
         if en:
             self.expect(obs[f"{p}.runnable"] == int(active), "ready-mismatch",
                         f"{p} runnable={obs[f'{p}.runnable']} but trigger active={int(active)}; {ctx}", port=p)
@@ -108,12 +157,13 @@ class Scen(CompScenario):
         if en and active and not done:
             self.hit("blocked_though_ready")
         if self.is_in:
-            cur = tuple(stim.get(f"data.{f}", 0) for f in self.fields)
+            cur = self.vals(stim, "data.")
             want = self.data1 if c["sync"] else cur
             if done:
                 got = tuple(obs[f"get.o.{f}"] for f in self.fields)
                 self.expect(got == want, "data-mismatch", f"get returned {got}, expected {want}; {ctx}", port=p)
                 self.hit("get_called")
+                self.count_transfer(want)
                 if c["sync"] and self.data1 != cur:
                     self.hit("sync_data_differs_from_current")
         else:
@@ -122,6 +172,7 @@ class Scen(CompScenario):
                         f"data shows {got}, last executed put wrote {self.out}; {ctx}", port=p)
             if done:
                 self.hit("put_called")
+                self.count_transfer(self.vals(stim, "put.i."))
                 if self.last_put == cyc - 1:
                     self.hit("back_to_back_puts")
                 self.last_put = cyc
@@ -150,7 +201,7 @@ class Scen(CompScenario):
         self.visit((raw, self.raw1, self.raw2, en, done), nontrivial=bool(active))
         # ---- step the model
         if not self.is_in and done:
-            self.out = tuple(stim.get(f"put.i.{f}", 0) for f in self.fields)
+            self.out = self.vals(stim, "put.i.")
         if self.is_in:
             self.data1 = cur
         self.raw2 = self.raw1
@@ -166,7 +217,9 @@ class Prop(PropBase):
         "quick": {"runs": 2400, "selftest_runs": 4},
         "thorough": {"runs": 40000, "selftest_runs": 32},
     }
-    rule = ("one run = one component (InputSampler / OutputBuffer) x (edge, polarity, synchronize) x layout, driven "
+    rule = ("one run = one component (InputSampler / OutputBuffer) x (edge, polarity, synchronize; in half of the runs "
+            "arguments whose value is the documented default are not passed) x layout (one or two fields of 1-64 bits, "
+            "unsigned or signed, given as a list or as a StructLayout), driven "
             "for 40-160 cycles by a seeded phase plan for the trigger (random(p) / held high / held low / toggling / "
             "single-cycle pulses; cycle-0 value part of the configuration) and a request pattern (always / random / "
             "sparse); distinct = distinct (configuration, raw trigger of this and the two previous cycles, request, "
@@ -174,7 +227,10 @@ class Prop(PropBase):
     expected_cov = ["trigger_active_in_cycle0", "callable_in_cycle0", "called_in_cycle0", "requested_while_inactive",
                     "edge_mode_level_held_requested", "edge_seen", "sync_trigger_differs_from_raw",
                     "sync_data_differs_from_current", "get_called", "put_called", "back_to_back_puts",
-                    "output_held_without_put", "active_not_requested"] + _CFG_KEYS
+                    "output_held_without_put", "active_not_requested", "called_with_default_edge",
+                    "called_with_default_polarity", "called_with_default_synchronize", "called_with_all_defaults",
+                    "struct_layout_transferred", "signed_field_transferred", "negative_value_transferred",
+                    "wide_field_transferred", "bits_above_12_transferred"] + _CFG_KEYS
     real = ["transactron.lib.basicio.InputSampler", "transactron.lib.basicio.OutputBuffer",
             "transactron.lib.adapters.AdapterTrans", "TransactionManager + scheduler", "amaranth pysim"]
     stubs = ["cycle driver (trigger / data / request stimulus)", "shift-register reference model of the trigger history"]
@@ -187,28 +243,37 @@ class Prop(PropBase):
         big = tier == "thorough"
         comp = "in" if (idx & 1) == 0 else "out"  # both components and all 8 settings in every 16 runs
         bits = (idx >> 1) & 7
-        layout = [["data", rng.choice([1, 4, 8, 12])]]
+        layout = [["data", rng.choice([1, 4, 8, 12]) if rng.random() < 0.7 else rng.choice([13, 16, 24, 32, 33, 64]),
+                   int(rng.random() < 0.25)]]
         if rng.random() < 0.4:
-            layout.append(["aux", rng.choice([1, 3, 9])])
+            layout.append(["aux", rng.choice([1, 3, 9, 20]), int(rng.random() < 0.25)])
         cycles = rng.randint(40, 400 if big else 160)
         kinds = ["random", "random", "high", "low", "toggle", "pulse"]
-        return {"comp": comp, "edge": bits & 1, "polarity": (bits >> 1) & 1, "sync": (bits >> 2) & 1,
-                "layout": layout, "trig0": rng.getrandbits(1), "en_mode": rng.choice(["always", "random", "random", "sparse"]),
-                "cycles": cycles, "sched": rng.choice(["eager", "eager", "rr"]),
-                "plan": make_plan(rng, cycles, kinds, min_len=4, max_len=30)}
+        cfg = {"comp": comp, "edge": bits & 1, "polarity": (bits >> 1) & 1, "sync": (bits >> 2) & 1,
+               "layout": layout, "trig0": rng.getrandbits(1), "en_mode": rng.choice(["always", "random", "random", "sparse"]),
+               "cycles": cycles, "sched": rng.choice(["eager", "eager", "rr"]),
+               "plan": make_plan(rng, cycles, kinds, min_len=4, max_len=30)}
+        # half of the runs leave out arguments whose value is the documented default (False)
+        args = [a for a, k in (("edge", "edge"), ("polarity", "polarity"), ("synchronize", "sync")) if not cfg[k]]
+        r = rng.random()
+        cfg["omit"] = args if r < 0.25 else [a for a in args if rng.random() < 0.5] if r < 0.5 else []
+        cfg["layout_form"] = "struct" if rng.random() < 0.35 else "list"
+        return cfg
 
     def make(self, cfg):
         return Scen(cfg)
 
     def features(self, cfg, viol):
-        return {"comp": cfg["comp"], "edge": cfg["edge"], "polarity": cfg["polarity"], "sync": cfg["sync"]}
+        return {"comp": cfg["comp"], "edge": cfg["edge"], "polarity": cfg["polarity"], "sync": cfg["sync"],
+                "omit": sorted(cfg.get("omit", [])), "layout_form": cfg.get("layout_form", "list"),
+                "signed": any(len(e) > 2 and e[2] for e in cfg["layout"]), "wide": any(e[1] > 12 for e in cfg["layout"])}
 
     def violation_class(self, feats):
         return {"kind": feats["kind"], "comp": feats["comp"]}
 
     def cfg_signature(self, cfg):
         return [cfg["comp"], cfg["edge"], cfg["polarity"], cfg["sync"], cfg["layout"], cfg["trig0"], cfg["en_mode"],
-                cfg["sched"]]
+                cfg["sched"], sorted(cfg.get("omit", [])), cfg.get("layout_form", "list")]
 
     def shrink_cfg(self, cfg):
         if len(cfg["layout"]) > 1:
@@ -218,6 +283,18 @@ class Prop(PropBase):
         if cfg["sched"] != "eager":
             c = dict(cfg)
             c["sched"] = "eager"
+            yield c
+        if cfg.get("layout_form", "list") != "list":
+            c = dict(cfg)
+            c["layout_form"] = "list"
+            yield c
+        if cfg.get("omit"):
+            c = dict(cfg)
+            c["omit"] = []
+            yield c
+        if any(len(e) > 2 and e[2] for e in cfg["layout"]):
+            c = dict(cfg)
+            c["layout"] = [[e[0], e[1], 0] for e in cfg["layout"]]
             yield c
 
 
